@@ -12,8 +12,11 @@ MCDisk(p, m) == IF p = "p1" THEN (IF m = "A" THEN 1 ELSE 2)
                 ELSE IF p = "p2" /\ m = "A" THEN 3 ELSE 0
 
 View == cvars
-Bound == TLCGet("level") < Depth
-Emit == (Hist /\ TLCGet("level") = Depth) => PrintT(<<"HIST", ToJson([kind |-> Kind, h |-> hist])>>)
+\* one CONSTRAINT: with Hist the history is part of the state, every behaviour of exactly Depth
+\* actions is printed once; without it (VIEW View) the search is cut at level Depth
+Cons == IF Hist THEN /\ (Len(hist) = Depth => PrintT(<<"HIST", ToJson([kind |-> Kind, h |-> hist])>>))
+                     /\ Len(hist) < Depth
+        ELSE TLCGet("level") < Depth
 \* non-vacuity: each of these must be refuted
 NeverTwoObjects == nextId <= 2
 NeverHit == \A i \in 1..Len(hist) : hist[i].res # "hit"
